@@ -444,6 +444,7 @@ def dataloader_epochs(n_idx, workers):
 
 class C19(PropertyCheck):
     pid = "C19"
+    claimed = True
     props_modules = ["KDVerif.Props.C19"]
     extra_build = ["KDVerif.Driver.Cache"]
     driver_main = "mains/Cache.lean"
